@@ -16,6 +16,7 @@ type PrimCall struct {
 	Key    string
 	Hash   *Term
 	DataID *Term
+	KC, KX, KY *Term
 	Data   string // structural key of digest / message
 	DataRope Rope
 	Sig    string
@@ -352,6 +353,16 @@ func curveNameOf(v Value) string {
 }
 
 // pubKeyID gives a structural identity of an *ecdsa.PublicKey value (struct Curve,X,Y).
+// ecKeyTerms: the semantic identity of an EC public key: (curve id, X, Y) as 64 / 528 / 528-bit terms
+func (e *Engine) ecKeyTerms(pub *StructV) (*Term, *Term, *Term) {
+	cn := curveNameOf(pub.fields[0])
+	x, _ := e.bigOf(pub.fields[1])
+	y, _ := e.bigOf(pub.fields[2])
+	_, xm := e.fit528(x.mag)
+	_, ym := e.fit528(y.mag)
+	return e.intern("curve", cn), xm, ym
+}
+
 func (e *Engine) ecPubID(pub *StructV) string {
 	cn := curveNameOf(pub.fields[0])
 	x, _ := e.bigOf(pub.fields[1])
@@ -599,7 +610,26 @@ func (e *Engine) callStub(name string, recv Value, args []Value) Value {
 		return p
 	case "(*math/big.Int).SetBytes":
 		_, p := e.bigOf(args[0])
-		mag := e.ropeToBig(e.bytesRope(args[1].(BytesV)))
+		rp := e.bytesRope(args[1].(BytesV))
+		mag := e.ropeToBig(rp)
+		// canonicalise: bytes that are provably the big-endian form of a known integer give that integer back
+		// (keeps later obligations syntactic instead of re-deriving the padding argument inside bigger formulas)
+		if !mag.isConst() {
+			for _, sg := range rp {
+				ib, ok := sg.(SegIntBE)
+				if !ok {
+					continue
+				}
+				a, b := e.unify(mag, ib.x)
+				if a == b {
+					break
+				}
+				if e.mustBe(tt.Eq(a, b)) {
+					mag = ib.x
+					break
+				}
+			}
+		}
 		e.store(p, BigV{mag: mag, neg: tt.Bool(false)})
 		return p
 	case "(*math/big.Int).Bytes":
@@ -708,11 +738,12 @@ func (e *Engine) callStub(name string, recv Value, args []Value) Value {
 		rFit, rm := e.fit528(r.mag)
 		sFit, sm := e.fit528(s.mag)
 		inRange := tt.And(rFit, sFit, tt.Not(r.neg), tt.Not(s.neg), tt.Ne(rm, tt.BVu(0, 528)), tt.Ne(sm, tt.BVu(0, 528)), tt.Cmp("bvult", rm, N), tt.Cmp("bvult", sm, N))
-		uf := tt.UF("V_ecdsa", 0, e.intern("key", keyID), e.canonID(dig), rm, sm)
+		kc, kx, ky := e.ecKeyTerms(pub)
+		uf := tt.UF("V_ecdsa", 0, kc, kx, ky, e.canonID(dig), rm, sm)
 		// correctness axiom made explicit for recorded signatures (helps the solver: no reliance on UF congruence over wide vectors)
 		for _, rec := range e.signedLog {
-			if rec.Kind == "ecdsa.sign" && rec.Key == keyID && rec.DataID == e.canonID(dig) {
-				uf = tt.Or(tt.And(tt.Eq(rm, rec.R), tt.Eq(sm, rec.S)), uf)
+			if rec.Kind == "ecdsa.sign" && rec.KC == kc && rec.DataID == e.canonID(dig) {
+				uf = tt.Or(tt.And(tt.Eq(kx, rec.KX), tt.Eq(ky, rec.KY), tt.Eq(rm, rec.R), tt.Eq(sm, rec.S)), uf)
 			}
 		}
 		v := tt.And(inRange, uf)
@@ -724,7 +755,8 @@ func (e *Engine) callStub(name string, recv Value, args []Value) Value {
 		if cn != "P-256" && cn != "P-384" && cn != "P-521" {
 			return TupleV{PtrV{}, e.mkErr("ecdsa: unsupported curve by crypto/ecdh")}
 		}
-		valid := tt.UF("onCurve", 0, e.intern("key", e.ecPubID(pub)))
+		kc, kx, ky := e.ecKeyTerms(pub)
+		valid := tt.UF("onCurve", 0, kc, kx, ky)
 		if !e.branch(valid) {
 			return TupleV{PtrV{}, e.mkErr("ecdsa: invalid public key")}
 		}
@@ -1016,8 +1048,9 @@ func (e *Engine) ecdsaSignOK(priv PtrV, digest BytesV) (PtrV, PtrV, Iface) {
 	r, s := tt.ZExt(rw, 528), tt.ZExt(sw, 528)
 	dig := e.bytesRope(digest)
 	keyID := e.ecPubID(pub)
-	e.addPC(tt.UF("V_ecdsa", 0, e.intern("key", keyID), e.canonID(dig), r, s))
-	e.signedLog = append(e.signedLog, &PrimCall{Kind: "ecdsa.sign", Key: keyID, DataID: e.canonID(dig), Data: e.ropeKey(dig), DataRope: dig, R: r, S: s})
+	kc, kx, ky := e.ecKeyTerms(pub)
+	e.addPC(tt.UF("V_ecdsa", 0, kc, kx, ky, e.canonID(dig), r, s))
+	e.signedLog = append(e.signedLog, &PrimCall{Kind: "ecdsa.sign", Key: keyID, KC: kc, KX: kx, KY: ky, DataID: e.canonID(dig), Data: e.ropeKey(dig), DataRope: dig, R: r, S: s})
 	return e.newBig(r, tt.Bool(false)), e.newBig(s, tt.Bool(false)), Iface{}
 }
 
